@@ -19,6 +19,9 @@ package main
 // commit/hash carries, for every resolved non-root node, whether the real hasher hashed (`h`) or
 // embedded (`e`) it; the driver turns that into its `small` predicate (a function of the collapsed
 // node; it reports `small-oracle-inconsistent` if the real decisions are not such a function).
+//
+// WRITE FAULTS of TrieDatabase.Commit (a batch write that fails once, retries, the lock on the error
+// paths) are a continuation of this stream on the same driver state: c17_fault.go (`sflushfail`).
 
 import (
 	"bytes"
@@ -616,4 +619,5 @@ func c17Store(c *Ctx) {
 			}
 		}
 	}
+	c17Fault(c) // write faults of TrieDatabase.Commit (c17_fault.go), same driver stream
 }
